@@ -439,6 +439,7 @@ func c02Stream(r *hx.Rand, tier string, n int, w *bufio.Writer) map[string]int {
 	c02RotationStream(r, env, n/16)
 	c02EndpointStream(r, env, n/8)
 	c02ReuseStream(r, env, n/16)
+	c02ConfigStream(r, env, n/16)
 	return stats
 }
 
